@@ -317,7 +317,8 @@ def universe(tier, sources, groups):
             tla_set([('s' + g,) for g in geo_nocov]), M),
     ]
     del pairs, singles, gseqs
-    return '=' + defs + 'UNION {' + ',\n  '.join(call) + '}', '=' + defs + 'UNION {' + ',\n  '.join(mp) + '}'
+    # (sequences of sets: TLC's union of large enumerated sets is quadratic)
+    return '=' + defs + '<<' + ',\n  '.join(call) + '>>', '=' + defs + '<<' + ',\n  '.join(mp) + '>>'
 
 
 def model_consts(sources, groups, flags, call_cases, map_cases):
@@ -340,8 +341,8 @@ def model_consts(sources, groups, flags, call_cases, map_cases):
 # TLC runs
 # ---------------------------------------------------------------------------------------------
 TABLE_DEF = (
-    'Table == UNION {{[kind |-> "call", s |-> cc[1], l |-> <<>>, q |-> cc[2], plan |-> PlanCall(cc[1], cc[2])] : cc \\in CallCases},\n'
-    '    {[kind |-> "map", s |-> "", l |-> mc[1], q |-> mc[2], plan |-> PlanMap(mc[1], mc[2])] : mc \\in MapCases}}\n')
+    'Table == [i \\in DOMAIN CallCases |-> {[kind |-> "call", s |-> cc[1], l |-> <<>>, q |-> cc[2], plan |-> PlanCall(cc[1], cc[2])] : cc \\in CallCases[i]}]\n'
+    '    \\o [i \\in DOMAIN MapCases |-> {[kind |-> "map", s |-> "", l |-> mc[1], q |-> mc[2], plan |-> PlanMap(mc[1], mc[2])] : mc \\in MapCases[i]}]\n')
 
 
 def run_model(ctx, name, consts, invariants, export=None, timeout=900, workers=16):
